@@ -2,8 +2,9 @@
    Keys are of an arbitrary type K (bytes for the theorems' reading, command tokens in the
    correspondence driver).  term.c: ibuf (pushed-back keys, read first), the terminal input, icmd (keys
    read since the last term_cmd()); vi.c: rep_cmd, the tail of vi(), vc_repeat, vc_execute.
-   term_push mirrors /repo WITH fixes/C09-term-push-front.patch: the consumed prefix of ibuf is
-   dropped and the pushed keys are placed in FRONT of the unread ones; the old behaviour (append at
+   term_push mirrors /repo after the fix: commits d3797a0 and 098bcee: the pushed keys are placed in
+   FRONT of the unread ones; the already-read part of ibuf (`used` = ibuf_pos) is reclaimed only when
+   the queue has drained and term_read reads from the terminal again.  The old behaviour (append at
    the end) is kept as term_push_append for the refutation theorem. *)
 From Coq Require Import List NArith ZArith Bool Arith.
 From NV Require Import GenConsts.
@@ -18,7 +19,7 @@ Section Queue.
 Variable K : Type.
 
 (* ibuf = the unread part ibuf[ibuf_pos .. ibuf_cnt); tin = what the terminal will still deliver *)
-Record tq := { ibuf : list K; tin : list K; icmd : list K }.
+Record tq := { used : nat; ibuf : list K; tin : list K; icmd : list K }.   (* used = ibuf_pos *)
 
 Definition stream (q : tq) : list K := ibuf q ++ tin q.
 
@@ -26,24 +27,26 @@ Definition stream (q : tq) : list K := ibuf q ++ tin q.
 Definition term_read (q : tq) : option (K * tq) :=
   let rec_ (c : K) := if length (icmd q) <? ICMD then icmd q ++ [c] else icmd q in
   match ibuf q with
-  | c :: r => Some (c, {| ibuf := r; tin := tin q; icmd := rec_ c |})
+  | c :: r => Some (c, {| used := S (used q); ibuf := r; tin := tin q; icmd := rec_ c |})
   | [] => match tin q with
-          | c :: r => Some (c, {| ibuf := []; tin := r; icmd := rec_ c |})
+          | c :: r => Some (c, {| used := 1; ibuf := []; tin := r; icmd := rec_ c |})   (* ibuf_cnt = 1, ibuf_pos = 1 *)
           | [] => None
           end
   end.
 
 (* term_cmd: hand out the record and start a new one *)
-Definition term_cmd (q : tq) : list K * tq := (icmd q, {| ibuf := ibuf q; tin := tin q; icmd := [] |}).
+Definition term_cmd (q : tq) : list K * tq := (icmd q, {| used := used q; ibuf := ibuf q; tin := tin q; icmd := [] |}).
 
-(* term_push (patched): clipped to the room left, placed before the unread keys *)
+(* ibuf_cnt *)
+Definition filled (q : tq) : nat := used q + length (ibuf q).
+(* term_push (repaired): clipped to sizeof(ibuf) - ibuf_cnt, placed before the unread keys *)
 Definition term_push (q : tq) (s : list K) : tq :=
-  let n := Nat.min (length s) (IBUF - length (ibuf q)) in
-  {| ibuf := firstn n s ++ ibuf q; tin := tin q; icmd := icmd q |}.
+  let n := Nat.min (length s) (IBUF - filled q) in
+  {| used := used q; ibuf := firstn n s ++ ibuf q; tin := tin q; icmd := icmd q |}.
 (* term_push before the repair: appended behind the unread keys *)
 Definition term_push_append (q : tq) (s : list K) : tq :=
-  let n := Nat.min (length s) (IBUF - length (ibuf q)) in
-  {| ibuf := ibuf q ++ firstn n s; tin := tin q; icmd := icmd q |}.
+  let n := Nat.min (length s) (IBUF - filled q) in
+  {| used := used q; ibuf := ibuf q ++ firstn n s; tin := tin q; icmd := icmd q |}.
 
 Fixpoint push_n (n : nat) (q : tq) (s : list K) : tq :=
   match n with O => q | S m => push_n m (term_push q s) s end.
@@ -82,7 +85,7 @@ Definition step (s : st) : st :=
 (* no push of this step is clipped *)
 Definition fits (s : st) : bool :=
   let '(_, k, a) := exec (ed s) (stream (q s)) in
-  let room := IBUF - length (ibuf (read_n k (snd (term_cmd (q s))))) in
+  let room := IBUF - filled (read_n k (snd (term_cmd (q s)))) in
   match a with
   | ADot n => Nat.max 1 n * length (rep s) <=? room
   | APush b n => Nat.max 1 n * length b <=? room
@@ -102,7 +105,7 @@ Fixpoint run (fuel : nat) (s : st) : option E :=
 End Vi.
 End Queue.
 
-Arguments ibuf {K}. Arguments tin {K}. Arguments icmd {K}. Arguments stream {K}. Arguments term_read {K}.
+Arguments used {K}. Arguments filled {K}. Arguments ibuf {K}. Arguments tin {K}. Arguments icmd {K}. Arguments stream {K}. Arguments term_read {K}.
 Arguments term_cmd {K}. Arguments term_push {K}. Arguments term_push_append {K}. Arguments push_n {K}.
 Arguments read_n {K}. Arguments ANone {K}. Arguments AChange {K}. Arguments ADot {K}. Arguments APush {K}.
 Arguments q {K E}. Arguments rep {K E}. Arguments ed {K E}. Arguments step {K E}. Arguments fits {K E}. Arguments run {K E}.
@@ -138,11 +141,12 @@ Definition tok_exec (macros : N -> option (list tok)) (e : ted) (s : list tok) :
 
 Definition tok_run (fuel : nat) (macros : N -> option (list tok)) (prog : list tok) : option (list N) :=
   match run (tok_exec macros) fuel
-            {| q := {| ibuf := []; tin := prog; icmd := [] |}; rep := []; ed := {| seen := []; lastreg := None |} |} with
+            {| q := {| used := 0; ibuf := []; tin := prog; icmd := [] |}; rep := []; ed := {| seen := []; lastreg := None |} |} with
   | Some e => Some (seen e)
   | None => None
   end.
 
-(* capacity instance on bytes: how many of n pushes of a one-key command fit after the `.` was read *)
+(* capacity instance on bytes: how many of n pushes of a one-key command fit after the keys `N.` were
+   read from the terminal (the last terminal read leaves ibuf_cnt = ibuf_pos = 1) *)
 Definition capacity_pushes (n : nat) : nat :=
-  length (ibuf (push_n n {| ibuf := []; tin := []; icmd := [] |} [120%N])).
+  length (ibuf (push_n n {| used := 1; ibuf := []; tin := []; icmd := [] |} [120%N])).
